@@ -157,7 +157,7 @@ def build(m, E):
     if t == 'bind':
         return m.ep.Pbind({kd['k']: keypat(m, kd) for kd in E['ks']})
     if t == 'mono':
-        return m.ep.Pmono(E['s'], {kd['k']: keypat(m, kd) for kd in E['ks']})
+        return m.ep.Pmono(E['s'], {kd['k']: keypat(m, kd) for kd in E['ks']}, articulate=bool(E.get('ar', False)))
     if t == 'seq':
         return m.lp.Pseq([build(m, x) for x in E['l']], 1)
     if t == 'chain':
@@ -208,6 +208,8 @@ def play(m, case):
         score = m.main.process(0)
         for b in score.list:
             t = b[0]
+            if not isinstance(t, (int, float)) and hasattr(t, '__float__'):
+                t = float(t)        # a time computed from a Rest-wrapped duration is an Operand with that value
             for msg in b[1:]:
                 cmd = msg[0]
                 if cmd not in ('/s_new', '/n_set', '/n_free'):
